@@ -1,5 +1,6 @@
 import Mustache.Basic.LineIO
 import Mustache.Model.WorldStep
+import Mustache.Model.Lifecycle
 /-! `driver world`: runs the world model on an op file and prints the observation lines of
     `harness/world_driver.cpp` (same grammar, same canonical format). -/
 namespace Mustache.Driver.World
@@ -23,8 +24,9 @@ def compOf (ch : Char) : Option CompId :=
   let i := letters.idxOf ch
   if i < letters.length then some i else none
 def letterOf (c : CompId) : String := String.singleton (letters.getD c '?')
-def sharedOf (ch : Char) : Option Nat := if ch = 'S' then some 0 else if ch = 'T' then some 1 else none
-def sharedLetter (s : Nat) : String := if s = 0 then "S" else "T"
+def sharedOf (ch : Char) : Option Nat :=
+  if ch = 'S' then some 0 else if ch = 'T' then some 1 else if ch = 'U' then some 2 else none
+def sharedLetter (s : Nat) : String := if s = 0 then "S" else if s = 1 then "T" else "U"
 
 def parseMask (s : String) : Option Mask :=
   if s = "-" then some [] else
@@ -39,7 +41,9 @@ structure St where
   ordOf : List (Nat × Nat) := []             -- packed value ↦ latest ordinal
   seenS : List Nat := []                      -- instance ids in order of first appearance (class numbers), type S
   seenT : List Nat := []
+  seenU : List Nat := []
   freshVals : List (Nat × Nat) := []          -- unpooled instances ↦ value
+  ev : Bool := false                          -- `events on`: an `EV` line (lifecycle counts of B and G) after every op
 
 def St.hname (s : St) (h : Handle) : String :=
   match s.ordOf.find? (·.1 == h.value) with
@@ -82,12 +86,13 @@ def instValue (s : St) (sid inst : Nat) : Nat :=
   | none => (match s.freshVals.find? (·.1 == inst) with | some (_, v) => v | none => 0)
 
 def St.classOf (s : St) (sid inst : Nat) : St × Nat :=
-  let seen := if sid = 0 then s.seenS else s.seenT
+  let seen := if sid = 0 then s.seenS else if sid = 1 then s.seenT else s.seenU
   let i := seen.idxOf inst
   if i < seen.length then (s, i)
   else
     let seen' := seen ++ [inst]
-    (if sid = 0 then { s with seenS := seen' } else { s with seenT := seen' }, seen.length)
+    (if sid = 0 then { s with seenS := seen' } else if sid = 1 then { s with seenT := seen' }
+     else { s with seenU := seen' }, seen.length)
 
 def dump (s0 : St) : St × List String := Id.run do
   let mut s := s0
@@ -106,7 +111,7 @@ def dump (s0 : St) : St × List String := Id.run do
         let comps := (a.mask.zip row.vals).map (fun p => s!"{letterOf p.1}:{showVal p.2}")
         let compsS := if comps.isEmpty then "-" else ",".intercalate comps
         let mut sh : List String := []
-        for sid in [0, 1] do
+        for sid in [0, 1, 2] do
           match a.shared.get? sid with
           | some inst =>
             let (s', k) := s.classOf sid inst
@@ -119,7 +124,7 @@ def dump (s0 : St) : St × List String := Id.run do
   for ai in [0:w.archs.length] do
     let a := w.arch ai
     let mut sh : List String := []
-    for sid in [0, 1] do
+    for sid in [0, 1, 2] do
       if a.shared.has sid then
         match a.shared.get? sid with
         | some inst =>
@@ -222,8 +227,26 @@ def exec (s : St) (t : Nat) (ws : List String) : St × String :=
     | .arch _ => (s, match s.w.archOf (match op with | .archOf e => e | _ => Handle.null) with
         | some a => s!"arch={a}" | none => "arch=null")
 
+/-- lifecycle events of the op `exec` is about to run, computed on the state BEFORE it (C03) -/
+def execEvents (s : St) (t : Nat) (ws : List String) : List Event :=
+  match ws with
+  | ["markdirty", _, _] => []
+  | ["marked", _] => []
+  | _ =>
+    match parseOp s.entity t ws with
+    | none => []
+    | some op => s.w.events catalogue op
+
+/-- `EV B:<constructs>/<move-constructs>/<move-assigns>/<destroys> G:…` -/
+def evLine (evs : List Event) : String :=
+  let f := fun (c : CompId) =>
+    let n := evCount evs c
+    s!"{letterOf c}:{n.1}/{n.2.1}/{n.2.2.1}/{n.2.2.2}"
+  s!"EV {f 1} {f 6}"
+
 def step (s : St) (line : String) : St × List String :=
   match words line with
+  | ["events", m] => ({ s with ev := m == "on" }, ["ok"])
   | ["threads", n] =>
     match n.toNat? with
     | some k => ({ s with w := { s.w with nthreads := k + 1 } }, ["ok"])
@@ -235,7 +258,8 @@ def step (s : St) (line : String) : St × List String :=
   | ["defaultctx"] => (s, ["ok"])
   | ["storagecap", _] => (s, ["ok"])
   | ["dump"] => dump s
-  | ["teardown"] => (s, ["teardown live B=0 G=0"])
+  | ["teardown"] =>
+    (s, "teardown live B=0 G=0" :: (if s.ev then [evLine s.w.teardownEvents] else []))
   | [] => (s, [])
   | w0 :: rest =>
     let tid : Option Nat :=
@@ -246,8 +270,12 @@ def step (s : St) (line : String) : St × List String :=
     | some t =>
       if rest.isEmpty then (s, ["bad-op"])
       else if t ≠ 0 && (!(s.w.isLocked) || t ≥ s.w.nthreads) then (s, ["bad-op"])
-      else let (s', l) := exec s t rest; (s', [l])
-    | none => let (s', l) := exec s 0 (w0 :: rest); (s', [l])
+      else
+        let (s', l) := exec s t rest
+        (s', l :: (if s.ev then [evLine (execEvents s t rest)] else []))
+    | none =>
+      let (s', l) := exec s 0 (w0 :: rest)
+      (s', l :: (if s.ev then [evLine (execEvents s 0 (w0 :: rest))] else []))
 
 /-! ## spec stream (`driver worldspec`): the property-level observations, entities by ordinal -/
 section SpecStream
@@ -275,7 +303,7 @@ def specDump (ws : WS) (n : Nat) : List String := Id.run do
     | none => out := out ++ [s!"E {o} valid=0"]
     | some e =>
       let comps := e.comps.map (fun p => s!"{letterOf p.1}:{showVal p.2}")
-      let sh := ([0, 1].filterMap (fun sid => (e.shared.find? (·.1 == sid)).map (fun p => s!"{sharedLetter sid}:{p.2}")))
+      let sh := ([0, 1, 2].filterMap (fun sid => (e.shared.find? (·.1 == sid)).map (fun p => s!"{sharedLetter sid}:{p.2}")))
       out := out ++ [s!"E {o} valid=1 comps={if comps.isEmpty then "-" else ",".intercalate comps} shared={if sh.isEmpty then "-" else ",".intercalate sh}"]
   return out ++ ["end"]
 
@@ -313,6 +341,7 @@ def specStep (st : St) (ws : WS) (line : String) : WS × List String :=
   | ["worldid", _] => (ws, ["ok"])
   | ["defaultctx"] => (ws, ["ok"])
   | ["storagecap", _] => (ws, ["ok"])
+  | ["events", _] => (ws, ["ok"])
   | ["dump"] => (ws, specDump ws st.issued.size)
   | ["teardown"] => (ws, ["teardown"])
   | [] => (ws, [])
